@@ -154,10 +154,18 @@ def check_case(ctx, case):
     if tname == "delta" and case.get("gamma"):
         ctx.count("M-META-delta-gamma")
         try:
+            # a precision level (second batch of samples sized from the coefficient of variation, which has no unit) only
+            # with power-of-two factors: every float32 disorder is then scaled exactly and the batch size cannot sit on a
+            # rounding edge
+            prec = case.get("precision") if factor in (2.0, 4.0, 0.5, 0.25) else None
+            ctx.observe("delta_gamma_precision", str(prec))
             np.random.seed(case["np_seed"])
-            g1 = c1.compute_gamma(d1, n_samples=case["n_samples"], sampler=_sampler(case["sampler"]))
+            g1 = c1.compute_gamma(d1, n_samples=case["n_samples"], sampler=_sampler(case["sampler"]), precision_level=prec)
             np.random.seed(case["np_seed"])
-            g2 = c2.compute_gamma(d2, n_samples=case["n_samples"], sampler=_sampler(case["sampler"]))
+            g2 = c2.compute_gamma(d2, n_samples=case["n_samples"], sampler=_sampler(case["sampler"]), precision_level=prec)
+            if g1.n_samples != g2.n_samples:
+                ctx.fail("number-of-samples-changes-under-delta-scaling", {"n_samples": [int(g1.n_samples), int(g2.n_samples)], "factor": factor,
+                                                                           "precision": prec}, monitor="M-META-delta-gamma")
         except Exception as e:
             ctx.fail_exc(f"delta:gamma-raises:{type(e).__name__}", e, monitor="M-META-delta-gamma")
             return
@@ -191,10 +199,10 @@ def run(ctx):
     dspecs += [{"kind": "positional", "delta": 1.0},
                {"kind": "combined", "alpha": 1.0, "beta": 1.0, "delta": 1.0, "pos": None, "cat": None}]
     names = list(TRANSFORMS)
-    for i in range(3):       # delta scaling with gamma first, whatever the time budget (deciding monitor)
+    for i in range(8):       # delta scaling with gamma first, whatever the time budget (deciding monitor)
         cs0 = cases.gen_continuum(rng, n_annot=2, max_units=4, allow_empty=False, labels=cases.LABELS_SMALL, family="dyadic")
         case = {"continuum": cs0, "dissim": {"kind": "combined", "alpha": 1.0, "beta": 1.0, "delta": 1.0, "pos": None, "cat": None},
-                "transform": "delta", "family_exact": True, "t_seed": i, "gamma": True, "np_seed": 100 + i, "n_samples": 3,
+                "transform": "delta", "family_exact": True, "t_seed": i, "gamma": True, "np_seed": 100 + i, "n_samples": 3, "precision": 0.1,
                 "sampler": "statistical"}
         ctx.begin_case(case)
         ctx.observe("transform", "delta")
@@ -219,6 +227,34 @@ def run(ctx):
         ctx.begin_case(case)
         ctx.observe("transform", "annotators(heavy-tailed block)")
         check_case(ctx, case)
+    # "bridged" motifs under annotator renaming: two short units far apart (their own dissimilarity is several delta_empty)
+    # at the two ends of one long unit of a third annotator - the three belong together only through the long one, so no
+    # pair of annotators may be given a say on its own
+    for i in range(ctx.scale(60, 1500)):
+        n = rng.choice([3, 3, 4])
+        names_ = cases.ANNOTATOR_NAMES[:n]
+        ann = {a: [] for a in names_}
+        t = 0.0
+        for _ in range(rng.randint(1, 4)):
+            u = float(rng.choice([1, 1, 2, 4]))
+            g = rng.choice([2.0, 2.125, 2.25, 2.5, 2.75, 3.0]) * u
+            ra, rb, rc = rng.sample(names_, 3)
+            ann[ra].append([t, t + u, rng.choice(cases.LABELS_SMALL)])
+            ann[rb].append([t + g, t + g + u, rng.choice(cases.LABELS_SMALL)])
+            ann[rc].append([t - rng.choice([0.0, 0.0, 0.25]), t + g + u + rng.choice([0.0, 0.0, 0.25]), rng.choice(cases.LABELS_SMALL)])
+            for other in names_:
+                if other not in (ra, rb, rc) and rng.random() < 0.5:
+                    ann[other].append([t + rng.choice([0.0, 0.5]), t + g + u, rng.choice(cases.LABELS_SMALL)])
+            t += g + u + float(rng.randint(8, 20))
+        if not all(ann.values()):
+            for a in names_:
+                if not ann[a]:
+                    ann[a].append([t, t + 2.0, rng.choice(cases.LABELS_SMALL)])
+        cspec = {"ann": {a: sorted(us) for a, us in ann.items()}, "family": "bridged"}
+        case = {"continuum": cspec, "dissim": dense_d[i % 2], "transform": "annotators", "family_exact": True, "t_seed": rng.randrange(2 ** 31)}
+        ctx.begin_case(case)
+        ctx.observe("transform", "annotators(bridged block)")
+        check_case(ctx, case)
     for i in range(ctx.scale(150, 5000)):
         if ctx.out_of_time():
             break
@@ -237,7 +273,7 @@ def run(ctx):
         tname = names[i % len(names)]
         case = {"continuum": cspec, "dissim": dspec, "transform": tname, "family_exact": exact, "t_seed": rng.randrange(2 ** 31)}
         if tname == "delta" and cases.spec_num_units(cspec) <= 16 and all(cspec["ann"].values()) and rng.random() < 0.6:
-            case.update({"gamma": True, "np_seed": rng.randrange(2 ** 31), "n_samples": rng.randint(2, 6),
+            case.update({"gamma": True, "np_seed": rng.randrange(2 ** 31), "n_samples": rng.randint(2, 6), "precision": rng.choice([None, 0.1, 0.2, 0.3]),
                          "sampler": rng.choice(["statistical", "shuffle"])})
         ctx.begin_case(case, nontrivial=cases.spec_num_units(cspec) >= 2)
         ctx.observe("transform", tname)
